@@ -6,7 +6,8 @@ open PwVerif.Remote PwVerif.Proto
 /-!
 Line protocol of the C10 model driver.
 
-    cfg <keepIO> <dropDetached> <keepKidExe> <lockAtReceiver>     (0/1 each)
+    cfg <keepIO> <dropDetached> <keepKidExe> <lockAtReceiver> <cancelQuiet>     (0/1 each)
+    cancel | lose | cancelat <path> | loseat <path>      the executor withdraws / loses the job
     fails <fid> ...
     fn <fid> <exe> <lnk> <n> <v1..vn> <r1..rn>      push a leaf: values, then per slot `-` or the sibling position
     comp <kind> <exe> <lnk> <nkids> <n> <v1..vn> <r1..rn> <l1..ln>   pops <nkids>; links `-` or `j.s`
@@ -22,6 +23,7 @@ Every op answers `res <token>`, the dump of the whole graph, `end`.
 structure DSt where
   cfg : Cfg
   atRecv : Bool
+  quiet : Bool
   fails : List Nat
   stack : List Node
   sess : Option Sess
@@ -31,7 +33,7 @@ structure DSt where
   pst : PwVerif.ExecH.St
 
 def DSt.init : DSt :=
-  { cfg := Cfg.pinned, atRecv := true, fails := [], stack := [], sess := none, tainted := false, jobsAt := [],
+  { cfg := Cfg.pinned, atRecv := true, quiet := false, fails := [], stack := [], sess := none, tainted := false, jobsAt := [],
     pcfg := PwVerif.ExecH.Cfg.pinned, pst := PwVerif.ExecH.St.init [] }
 
 def parsePath (w : String) : Option (List Nat) :=
@@ -189,14 +191,40 @@ def onSess (st : DSt) (heavy : Bool) (f : Sess → Sess × Res) : DSt × List St
     if st.tainted && heavy then (st, ["res unmodelled", "end"])
     else let (s', r) := f s; reply st s' r
 
+def outcomeTop (st : DSt) (failsF : Nat → Bool) (oc : Outcome) (s : Sess) : Sess × Res :=
+  match s.job with
+  | none => (s, .notOut)
+  | some j =>
+    match finishO st.cfg failsF st.quiet oc j s.node with
+    | some n => ({ s with node := n, job := none }, .ok)
+    | none => (s, .notOut)
+
+def outcomeAt (st : DSt) (failsF : Nat → Bool) (oc : Outcome) (path : String) : DSt × List String :=
+  match parsePath path, st.sess with
+  | some pth, some s =>
+    if st.tainted then (st, ["res unmodelled", "end"]) else
+    match st.jobsAt.find? (·.1 == path) with
+    | none => reply st s .notOut
+    | some (_, job) =>
+      match finishOAt st.cfg failsF st.quiet oc job pth s.node with
+      | some r =>
+        let (st', out) := reply st { s with node := r } .ok
+        ({ st' with jobsAt := st.jobsAt.filter (·.1 != path) }, out)
+      | none => reply st s .notOut
+  | _, _ => (st, ["bad-op"])
+
 def step (st : DSt) (ws : List String) : DSt × List String :=
   let failsF := fun fid => st.fails.contains fid
   match ws with
-  | ["cfg", a, b, c, d] =>
-    match parseBool a, parseBool b, parseBool c, parseBool d with
-    | some a, some b, some c, some d =>
-      ({ st with cfg := { keepIO := a, dropDetached := b, keepKidExe := c }, atRecv := d }, [])
-    | _, _, _, _ => (st, ["bad-op"])
+  | ["cfg", a, b, c, d, e] =>
+    match parseBool a, parseBool b, parseBool c, parseBool d, parseBool e with
+    | some a, some b, some c, some d, some e =>
+      ({ st with cfg := { keepIO := a, dropDetached := b, keepKidExe := c }, atRecv := d, quiet := e }, [])
+    | _, _, _, _, _ => (st, ["bad-op"])
+  | ["cancel"] => onSess st true (outcomeTop st failsF .cancelled)
+  | ["lose"] => onSess st true (outcomeTop st failsF .lost)
+  | ["cancelat", path] => outcomeAt st failsF .cancelled path
+  | ["loseat", path] => outcomeAt st failsF .lost path
   | ["pcfg", a, b] =>
     match parseBool a, parseBool b with
     | some a, some b => ({ st with pcfg := { shutdownBuilt := a, settleRefused := b } }, [])
